@@ -97,6 +97,30 @@ fn run_case<H: TranscriptHash>(
     };
     let params = setup.get(k).clone();
     let shape = shape_string(&pk, k);
+    {
+        // compiled custom-gates graph of the proving key vs the Lean compiler on the dumped gates
+        let gates: Vec<String> = pk
+            .get_vk()
+            .cs()
+            .gates()
+            .iter()
+            .flat_map(|g| g.polynomials().iter().map(mzkh::csdump::expr_string))
+            .collect();
+        let (consts, rots, calcs) = pk.verif_custom_gates_graph();
+        // the last calculation is the Horner combination of the parts with y
+        let (horner, body) = calcs.split_last().expect("horner");
+        let parts = horner.split(';').nth(1).unwrap_or("").to_string();
+        let ans = format!(
+            "consts={} rots={} calcs={} parts={}",
+            consts.iter().map(mzkh::fe_hex).collect::<Vec<_>>().join(","),
+            if rots.is_empty() { "-".to_string() } else { rots.iter().map(|r| r.to_string()).collect::<Vec<_>>().join(",") },
+            if body.is_empty() { "-".to_string() } else { body.join(";") },
+            if parts.is_empty() { "-".to_string() } else { parts }
+        );
+        if !gates.is_empty() {
+            ctx.case("graph", true, &format!("graph {}", gates.join(";")), &ans);
+        }
+    }
     let insts: Vec<Vec<Vec<F>>> = circuits.iter().map(|c| c.instances()).collect();
     let lens = insts
         .iter()
